@@ -375,6 +375,48 @@ def known_matches(entry, case, impl, model):
     return bool(fn and fn(case, impl, model))
 
 
+def known_findings_pass(rep, registry):
+    """replay the witness of every known finding of this property: an open finding that still fails as
+    recorded is printed as KNOWN-FINDING (exit status unaffected); a fixed one must pass"""
+    entries = load_known(rep.prop)
+    if not entries:
+        return
+    d = os.path.join(WORK, rep.prop, "known")
+    shutil.rmtree(d, ignore_errors=True)
+    os.makedirs(d)
+    cp = os.path.join(d, "raw.jsonl")
+    with open(cp, "w") as f:
+        for e in entries:
+            f.write(json.dumps(e["witness"]) + "\n")
+    sh([BWH, "replay", "--out", d, cp])
+    run_model(os.path.join(d, "cases.jsonl"), os.path.join(d, "model.jsonl"))
+    import known_classes
+    with open(os.path.join(d, "cases.jsonl")) as fc, open(os.path.join(d, "impl.jsonl")) as fi, open(os.path.join(d, "model.jsonl")) as fm:
+        for e, c, i, m in zip(entries, fc, fi, fm):
+            case, impl, model = json.loads(c), json.loads(i), json.loads(m)
+            rep.evaluations += 1
+            probs = registry.ORACLES[e["oracle"]](case, impl)
+            cls = getattr(known_classes, e["class"], known_classes.never)
+            explained = [p for p, k in probs if k is not None or cls(case, impl, model)]
+            unexplained = [p for p, k in probs if k is None and not cls(case, impl, model)]
+            diffs = compare_outcome(impl, model)
+            if e["status"] == "open":
+                if explained:
+                    rep.known_finding(f"{e['id']}: {e['what']} [{e['call_site']}]")
+                elif not probs:
+                    print(f"  note: known finding {e['id']} no longer reproduces on this tree")
+                if unexplained or diffs:
+                    rep.violation({"property": rep.prop, "what": f"witness of known finding {e['id']} shows a failure outside the recorded class",
+                                   "case": case, "impl": impl, "model": model, "problems": unexplained,
+                                   "differences": [{"field": f, "impl": a, "model_and_spec": b} for f, a, b in diffs]})
+            else:
+                rep.count(f"fixed-witness:{e['id']}")
+                if probs or diffs:
+                    rep.violation({"property": rep.prop, "what": f"regression: the defect fixed by commit {e.get('commit')} ({e['id']}: {e['what']}) is back",
+                                   "case": case, "impl": impl, "model": model, "problems": [p for p, _ in probs],
+                                   "differences": [{"field": f, "impl": a, "model_and_spec": b} for f, a, b in diffs]})
+
+
 # ------------------------------------------------------------------------------------------------ main
 
 def setup():
@@ -468,6 +510,7 @@ def main():
         tr, obligations = prepare(prop, meta, meta.get("needs_binary", False))
         rep.obligations = obligations
         rep.extra["translated_tables"] = {k: (len(v) if isinstance(v, list) else v) for k, v in tr.items() if k in ("ext", "detectors")}
+        known_findings_pass(rep, registry)
         meta["run"](rep, tier, seed, tr)
     except Broken as b:
         # an obligation / build / correspondence step no longer checks: search for a failing input, else report no-failing-input-found
